@@ -96,7 +96,7 @@ type Net struct {
 }
 
 func New(mux *tape.Mux) *Net {
-	return &Net{Tape: mux, byName: map[string]*Party{}, StepTimeout: 180 * time.Second, ConstructTimeout: 20 * time.Second}
+	return &Net{Tape: mux, byName: map[string]*Party{}, StepTimeout: 180 * time.Second, ConstructTimeout: 90 * time.Second}
 }
 
 func (n *Net) Party(name string) *Party { return n.byName[name] }
